@@ -21,11 +21,11 @@ inductive Seg
   | dict (kvs : List (Str × Int))
 deriving DecidableEq, Repr
 
-def kClass : Str := "class".toList
-def kInstance : Str := "instance".toList
-def kAttribute : Str := "attribute".toList
-def kElement : Str := "element".toList
-def kSymbolic : Str := "symbolic".toList
+def kClass : Str := ['c', 'l', 'a', 's', 's']
+def kInstance : Str := ['i', 'n', 's', 't', 'a', 'n', 'c', 'e']
+def kAttribute : Str := ['a', 't', 't', 'r', 'i', 'b', 'u', 't', 'e']
+def kElement : Str := ['e', 'l', 'e', 'm', 'e', 'n', 't']
+def kSymbolic : Str := ['s', 'y', 'm', 'b', 'o', 'l', 'i', 'c']
 
 def hasKey (k : Str) (kvs : List (Str × Int)) : Bool := kvs.any fun p => p.1 == k
 
@@ -105,22 +105,28 @@ def defaultKey : Nat → Str
   | 2 => kAttribute
   | _ => kElement
 
+/-- one term of `path[1:].split('/')` -/
+def numericSeg (i : Nat) (s : Str) : Except Err Seg :=
+  if startsWith s '{' then
+    match parseJsonFrag s with
+    | some kvs => Except.ok (Seg.dict kvs)
+    | none => Except.error Err.unmodelled
+  else if i < 4 then
+    match parseInt s with
+    | some v => Except.ok (Seg.dict [(defaultKey i, v)])
+    | none => Except.error Err.reject
+  else Except.error Err.reject
+
 /-- the loop over `path[1:].split('/')` -/
 def numericSegs : Nat → List Str → Except Err (List Seg)
-  | _, [] => pure []
-  | i, s :: rest => do
-    let seg ←
-      if startsWith s '{' then
-        match parseJsonFrag s with
-        | some kvs => pure (Seg.dict kvs)
-        | none => throw Err.unmodelled
-      else if i < 4 then
-        match parseInt s with
-        | some v => pure (Seg.dict [(defaultKey i, v)])
-        | none => throw Err.reject
-      else throw Err.reject
-    let more ← numericSegs (i + 1) rest
-    pure (seg :: more)
+  | _, [] => Except.ok []
+  | i, s :: rest =>
+    match numericSeg i s with
+    | Except.error e => Except.error e
+    | Except.ok seg =>
+      match numericSegs (i + 1) rest with
+      | Except.error e => Except.error e
+      | Except.ok more => Except.ok (seg :: more)
 
 def elemSeg (e : Int) : Seg := Seg.dict [(kElement, e)]
 
@@ -149,43 +155,65 @@ def parseBracket (es : Str) (cnt : Option Int) : Except Err (Int × Option Int) 
     | some elm => pure (elm, cnt)
     | none => throw Err.reject
 
-def parseComponent (path : Str) (elm cnt : Option Int) :
-    Except Err (List Seg × Option Int × Option Int) := do
-  let (path, cnt) ←
-    match splitFirst '*' path with
-    | some (p, c) =>
-      match parseInt c with
-      | some v => pure (p, some v)
-      | none => throw Err.reject
-    | none => pure (path, cnt)
-  let (path, elm, cnt) ←
-    match splitFirst '[' path with
-    | some (p, e) =>
-      match splitAll ']' e with
-      | [es, rem] =>
-        if rem ≠ [] then throw Err.reject
-        else do
-          let (el, c) ← parseBracket es cnt
-          pure (p, some el, c)
-      | _ => throw Err.reject
-    | none => pure (path, elm, cnt)
-  let segs ←
-    match path with
-    | '@' :: rest => numericSegs 0 (splitAll '/' rest)
-    | _ => pure [Seg.sym path]
+/-- `if '*' in path: path,cnt = path.split( '*', 1 ); cnt = parse_int( cnt )` -/
+def stageStar (path : Str) (cnt : Option Int) : Except Err (Str × Option Int) :=
+  match splitFirst '*' path with
+  | some (p, c) =>
+    match parseInt c with
+    | some v => pure (p, some v)
+    | none => throw Err.reject
+  | none => pure (path, cnt)
+
+/-- `if '[' in path: ...` -/
+def stageBracket (path : Str) (elm cnt : Option Int) : Except Err (Str × Option Int × Option Int) :=
+  match splitFirst '[' path with
+  | some (p, e) =>
+    match splitAll ']' e with
+    | [es, rem] =>
+      if rem ≠ [] then throw Err.reject
+      else
+        match parseBracket es cnt with
+        | Except.ok (el, c) => pure (p, some el, c)
+        | Except.error err => throw err
+    | _ => throw Err.reject
+  | none => pure (path, elm, cnt)
+
+/-- numeric `@...` or a symbolic tag -/
+def stageSegs (path : Str) : Except Err (List Seg) :=
+  match path with
+  | '@' :: rest => numericSegs 0 (splitAll '/' rest)
+  | _ => pure [Seg.sym path]
+
+def finishComponent (segs : List Seg) (elm cnt : Option Int) : List Seg × Option Int × Option Int :=
   match elm with
-  | some e => pure (setElement segs e, elm, cnt)
-  | none => pure (segs, elm, cnt)
+  | some e => (setElement segs e, elm, cnt)
+  | none => (segs, elm, cnt)
+
+def parseComponent (path : Str) (elm cnt : Option Int) :
+    Except Err (List Seg × Option Int × Option Int) :=
+  match stageStar path cnt with
+  | Except.error e => Except.error e
+  | Except.ok (p1, cnt1) =>
+    match stageBracket p1 elm cnt1 with
+    | Except.error e => Except.error e
+    | Except.ok (p2, elm2, cnt2) =>
+      match stageSegs p2 with
+      | Except.error e => Except.error e
+      | Except.ok segs => Except.ok (finishComponent segs elm2 cnt2)
 
 def parseElementsGo (elm cnt : Option Int) :
     List Str → Except Err (List Seg × Option Int × Option Int)
-  | [] => throw Err.reject
+  | [] => Except.error Err.reject
   | [last] => parseComponent last elm cnt
-  | c :: rest => do
-    let (s, _, k) ← parseComponent c none none
-    if k ≠ none ∧ k ≠ some 1 then throw Err.reject
-    let (s2, e, c2) ← parseElementsGo elm cnt rest
-    pure (s ++ s2, e, c2)
+  | c :: rest =>
+    match parseComponent c none none with
+    | Except.error e => Except.error e
+    | Except.ok (s, _, k) =>
+      if k ≠ none ∧ k ≠ some 1 then Except.error Err.reject
+      else
+        match parseElementsGo elm cnt rest with
+        | Except.error e => Except.error e
+        | Except.ok (s2, e, c2) => Except.ok (s ++ s2, e, c2)
 
 /-- `device.parse_path_elements( path, elm, cnt )` for a `str` path -/
 def parsePathElements (path : Str) (elm cnt : Option Int := none) :
